@@ -32,8 +32,20 @@ def dropped (r : Row) : Bool := r.disp == .discarded || r.disp == .deferredDisca
 /-- stands at the top level of its function: executed exactly once per call, where the statement stands -/
 def plain (r : Row) : Bool := !r.inLoop && !r.inDefer && !r.inBranch
 
-/-- The explicit exceptions of `no_error_discarded_on_merge_path` (reasons there): (function, callee) -/
+/-- The three closes in the deferred clean-up of a table writer whose `Open` FAILED (3b4867f): (function, callee) -/
+def failedOpenCleanup : List (String × String) :=
+  [("SSTableStreamWriter.Open", "writer.indexWriter.Close"),
+   ("SSTableStreamWriter.Open", "writer.dataWriter.Close"),
+   ("SSTableStreamWriter.Open", "writer.metaDataFile.Close")]
+
+/-- a row of that clean-up: a `Close` in `SSTableStreamWriter.Open`, inside the `defer`, inside a branch -/
+def isFailedOpenCleanup (r : Row) : Bool :=
+  r.fn == "SSTableStreamWriter.Open" && r.method == "Close" && r.inDefer && r.inBranch && !r.inLoop &&
+    failedOpenCleanup.contains (r.fn, r.callee)
+
+/-- The explicit exceptions of `no_error_discarded_on_merge_path` (reasons there), in table order: (function, callee) -/
 def allowedDiscards : List (String × String) :=
+  failedOpenCleanup ++
   [("SSTableStreamWriter.WriteNext", "fnvHash.Write"),
    ("SSTableSimpleWriter.WriteSkipListMap", "skipListMap.Iterator"),
    ("memstore.flushMemstore", "m.skipListMap.Iterator"),
@@ -69,13 +81,23 @@ theorem no_unknown_rows : table.all (fun r => !isUnknown r.disp) = true := by de
 /-- The ONLY error values dropped on these paths (`_ =`, `x, _ :=`, bare call, `defer f()`, or tested and then ignored),
 each harmless for a stated reason:
 * `fnvHash.Write` (WriteNext) and `crc.Write` (fillRecordHeaderV4): `hash.Hash.Write` "never returns an error" (package hash);
-* `skipListMap.Iterator()` in flushMemstore / WriteSkipListMap: `skiplist.Map.Iterator` is `return &Iterator{…}, nil`.
-Excluded: `_ = writer.Close()`, a bare `writer.WriteNext(k, v)`, `defer reader.Close()` replacing the joined close,
-`if err != nil { log.Printf(…) }` followed by carrying on — and the shape of C11-m1 (the failure of an input's first
+* `skipListMap.Iterator()` in flushMemstore / WriteSkipListMap: `skiplist.Map.Iterator` is `return &Iterator{…}, nil`;
+* since 3b4867f the three `_ = x.Close()` of `SSTableStreamWriter.Open`'s deferred clean-up: that block returns at once
+  unless `Open` is ALREADY returning an error (`C02.Order.writer_open_cleanup_only_on_error` has the guard `err == nil →
+  return` and the nil checks on the regenerated order table), so the failure is reported by the primary error and nothing
+  was written through these writers yet; they are the only dropped values inside a `defer`, and every other step of `Open`
+  is tested.
+Excluded: `_ = writer.Close()` anywhere else, a bare `writer.WriteNext(k, v)`, `defer reader.Close()` replacing the joined
+close, `if err != nil { log.Printf(…) }` followed by carrying on — and the shape of C11-m1 (the failure of an input's first
 `Next()` assigned to a loop-local `err` that shadows the named result and dies with the iteration: `swallowed`). -/
 theorem no_error_discarded_on_merge_path :
     (table.filter dropped).map (fun r => (r.fn, r.callee)) = allowedDiscards ∧
-    (table.filter dropped).all (fun r => r.disp == Disp.discarded && !r.inLoop && !r.inDefer) = true := by decide +kernel
+    (table.filter dropped).all (fun r => r.disp == Disp.discarded && !r.inLoop && (!r.inDefer || isFailedOpenCleanup r)) = true ∧
+    ((rowsOf "SSTableStreamWriter.Open").filter (fun r => !isFailedOpenCleanup r)).map (fun r => (r.callee, r.disp, r.inDefer)) =
+      [("rProto.NewWriter", Disp.checkedThenReturn, false), ("writer.indexWriter.Open", Disp.checkedThenReturn, false),
+       ("recordio.NewFileWriter", Disp.checkedThenReturn, false), ("writer.dataWriter.Open", Disp.checkedThenReturn, false),
+       ("os.OpenFile", Disp.checkedThenReturn, false), ("bloomfilter.NewOptimal", Disp.checkedThenReturn, false)] := by
+  decide +kernel
 
 /-- No error value is lost UNSEEN: assigned to a variable that is assigned again, goes out of scope, or is left behind by a
 `return` before anything looked at it.  Excludes C11-m2 (`_, err = bloomFilter.WriteFile(…)` re-using the named result
@@ -137,13 +159,20 @@ theorem heap_reports_input_failures :
     (rowsOf "pq.NewPriorityQueue").map (fun r => (r.callee, r.disp)) = [("q.init", Disp.checkedThenReturn)] := by decide +kernel
 
 /-- Every `Close` on these paths — and this is the complete list of them — is returned, joined into the returned error
-(also from a deferred literal: `err = errors.Join(err, x.Close())`) or tested.  With the 4 MiB write buffers the final
-flush inside `Close` carries almost all bytes of a table, so a dropped `Close` error is a dropped write error.  Excludes
-`defer writer.Close()`, `_ = reader.Close()`, a deferred `err = writer.Close()`, and the removal of a close from the path
-(C11-m4 removes the tested `writer.Close` of executeCompaction). -/
+(also from a deferred literal: `err = errors.Join(err, x.Close())`) or tested; the ONLY exception are the three closes of
+the failed-`Open` clean-up of the table writer (3b4867f; see `no_error_discarded_on_merge_path`: they run only while `Open`
+returns its own error, before anything was written).  With the 4 MiB write buffers the final flush inside `Close` carries
+almost all bytes of a table, so a dropped `Close` error is a dropped write error.  Excludes `defer writer.Close()`,
+`_ = reader.Close()`, a deferred `err = writer.Close()`, and the removal of a close from the path (C11-m4 removes the tested
+`writer.Close` of executeCompaction).  New closes of the repairs: the readers of a compaction are closed by a deferred
+loop (bfb8835: now registered before they are opened — row order), the flag writer by a deferred joined close
+(a7ed007: before its `Open`). -/
 theorem close_errors_joined :
     (table.filter (fun r => r.method == "Close")).map (fun r => (r.fn, r.callee, r.inDefer)) =
-      [("SSTableStreamWriter.Close", "writer.indexWriter.Close", false),
+      [("SSTableStreamWriter.Open", "writer.indexWriter.Close", true),
+       ("SSTableStreamWriter.Open", "writer.dataWriter.Close", true),
+       ("SSTableStreamWriter.Open", "writer.metaDataFile.Close", true),
+       ("SSTableStreamWriter.Close", "writer.indexWriter.Close", false),
        ("SSTableStreamWriter.Close", "writer.dataWriter.Close", false),
        ("SSTableStreamWriter.Close", "writer.metaDataFile.Close", true),
        ("SSTableSimpleWriter.WriteSkipListMap", "writer.streamWriter.Close", true),
@@ -159,7 +188,11 @@ theorem close_errors_joined :
        ("FileWriter.Close", "w.file.Close", false),
        ("rproto.Writer.Close", "w.writer.Close", false),
        ("Replayer.replayFile", "reader.Close", true)] ∧
-    table.all (fun r => r.method != "Close" || reported r) = true := by decide +kernel
+    table.all (fun r => r.method != "Close" || reported r || isFailedOpenCleanup r) = true ∧
+    -- bfb8835 / a7ed007: the deferred closes precede, in source order, the calls whose failure they now cover
+    ((rowsOf "simpledb.executeCompaction").filter (fun r => r.inLoop)).map (fun r => (r.callee, r.inDefer, r.disp)) =
+      [("reader.Close", true, Disp.returned), ("sstables.NewSSTableReader", false, Disp.checkedThenReturn),
+       ("reader.Scan", false, Disp.checkedThenReturn)] := by decide +kernel
 
 /-- `executeCompaction` writes the success flag (`saveCompactionMetadata`, once, unconditionally, its error tested) only
 after a `writer.Close()` that stands at the top level of the function — not deferred, not in a branch — WHOSE ERROR IS
@@ -178,16 +211,20 @@ theorem flag_written_only_after_close_checked :
 
 /-- One compaction cycle: the result is installed (`reflectCompactionResult`) only after `executeCompaction`, whose error
 is tested and ends the cycle; the merge inside `executeCompaction` and both steps of `saveCompactionMetadata` are tested
-too.  With C11_Stack.compaction_fault_not_installed (model) this is the "consequently" clause of C11 on the source. -/
+too; the close of the flag writer — the step that makes the flag readable — is joined into the returned error on every
+path, since a7ed007 also when `Open` of the flag writer fails.  With C11_Stack.compaction_fault_not_installed (model) this
+is the "consequently" clause of C11 on the source.  (6dd9211 moved the done signal of the goroutine out of its `defer`; the
+rows of `backgroundCompaction` / `flushMemstoreContinuously` — error tested, then `log.Panicf` — are unchanged.) -/
 theorem compaction_installed_only_after_execute_checked :
     (rowsOf "simpledb.backgroundCompaction").map (fun r => (r.callee, r.disp)) =
       [("func literal", Disp.checkedThenReturn), ("executeCompaction", Disp.checkedThenReturn),
        ("db.sstableManager.reflectCompactionResult", Disp.checkedThenReturn)] ∧
     ((rowsOf "simpledb.executeCompaction").filter (fun r => r.method == "MergeCompact")).map (fun r => (plain r, r.disp)) =
       [(true, Disp.checkedThenReturn)] ∧
-    (rowsOf "simpledb.saveCompactionMetadata").map (fun r => (r.callee, r.disp)) =
-      [("rProto.NewWriter", Disp.checkedThenReturn), ("metaWriter.Open", Disp.checkedThenReturn),
-       ("metaWriter.Close", Disp.returned), ("metaWriter.Write", Disp.checkedThenReturn)] := by decide +kernel
+    -- a7ed007: the deferred, joined close of the flag writer is registered BEFORE `Open` (it was after it)
+    (rowsOf "simpledb.saveCompactionMetadata").map (fun r => (r.callee, r.disp, r.inDefer)) =
+      [("rProto.NewWriter", Disp.checkedThenReturn, false), ("metaWriter.Close", Disp.returned, true),
+       ("metaWriter.Open", Disp.checkedThenReturn, false), ("metaWriter.Write", Disp.checkedThenReturn, false)] := by decide +kernel
 
 /-- The flusher: `executeFlush` tests every step (directory, table, WAL removal, re-open); the goroutine tests
 `executeFlush` and stops (`log.Panicf`) — a failed flush never removes the WAL file or adds a reader, because each `return
@@ -201,14 +238,21 @@ theorem flush_steps_all_checked :
   decide +kernel
 
 /-- The writers release what they hold where the statement stands: `FileWriter.Close` flushes and closes the file on every
-call (only the truncation is conditional; since 855b3b1 the two error branches close the file as well and join its error); the table writer closes index and data writer unconditionally and not in a
-`defer` (C02-m2), the metadata write and the bloom filter are the conditional parts.  Excludes C19-m4 (an `if … else if`
-chain that closes the file only when no truncation was needed: the error flow stays intact, the descriptor leaks). -/
+call (only the truncation is conditional; since 855b3b1 the two error branches close the file as well and join its error);
+the table writer closes index and data writer where the statements stand — NOT in a `defer` (C02-m2), not in a loop, as
+its first two calls, before the bloom filter and the metadata; since 3b4867f each stands behind a condition (the nil check of
+that writer: `C02.Order.meta_written_last` has the condition texts), so they are no longer `plain`, and NO other call of
+`Close` is.  Excludes C19-m4 (an `if … else if` chain that closes the file only when no truncation was needed: the error
+flow stays intact, the descriptor leaks). -/
 theorem writer_close_steps_unconditional :
     (rowsOf "FileWriter.Close").map (fun r => (r.callee, plain r)) =
       [("w.bufWriter.Flush", true), ("w.file.Close", false), ("w.file.Truncate", false), ("w.file.Close", false),
        ("w.file.Close", true)] ∧
-    ((rowsOf "SSTableStreamWriter.Close").filter plain).map (·.callee) = ["writer.indexWriter.Close", "writer.dataWriter.Close"] ∧
+    (rowsOf "SSTableStreamWriter.Close").map (fun r => (r.callee, r.inDefer, r.inLoop)) =
+      [("writer.indexWriter.Close", false, false), ("writer.dataWriter.Close", false, false),
+       ("writer.bloomFilter.WriteFile", false, false), ("writer.metaDataFile.Close", true, false),
+       ("proto.Marshal", false, false), ("writer.metaDataFile.Write", false, false)] ∧
+    (rowsOf "SSTableStreamWriter.Close").all (fun r => r.inBranch) = true ∧
     (rowsOf "FileWriter.WriteSync").map (fun r => (r.callee, plain r)) =
       [("w.Write", true), ("w.bufWriter.Flush", true), ("w.file.Sync", true)] := by decide +kernel
 
@@ -221,7 +265,8 @@ theorem write_next_reports_rollback_failure :
        ("writer.indexWriter.Write", Disp.checkedThenReturn), ("writer.dataWriter.Seek", Disp.returned)] := by decide +kernel
 
 /-- Summary: on the listed paths every error value is reported, or translated from an expected sentinel, or is one of the
-four listed harmless discards. -/
+four listed harmless discards, or one of the three closes of the failed-`Open` clean-up (3b4867f), where `Open` is already
+returning an error. -/
 theorem errors_never_absorbed :
     table.all (fun r => reported r || r.disp == Disp.translated ||
       (r.disp == Disp.discarded && allowedDiscards.contains (r.fn, r.callee))) = true := by decide +kernel
